@@ -247,4 +247,309 @@ theorem connect_expiry (b : B) (r : ConnectReq) (s : Sess) (h : (b.connect r).se
   · cases hse : r.se <;> simp [hv]
   · cases hcl : r.clean <;> simp [hv]
 
+theorem unregSess_expiry (c : Cli) (s : Sess) :
+    (unregSess c s false).expiry =
+      (if c.v = 5 then (match c.discExpiry with | some (some x) => x | _ => s.expiry) else s.expiry) := by
+  unfold unregSess
+  by_cases hv : c.v = 5
+  · simp only [hv, Bool.not_false, beq_self_eq_true, Bool.and_self, if_true]
+    rcases c.discExpiry with _ | _ | x <;> rfl
+  · simp [hv]
+
+theorem unregSess_cid (c : Cli) (s : Sess) (f : Bool) : (unregSess c s f).cid = s.cid := by
+  unfold unregSess
+  split
+  · split <;> rfl
+  · rfl
+
+theorem unregister_deadline (b : B) (conn : String) (c : Cli) (s : Sess)
+    (hc : b.cli? conn = some c) (hs : b.sess? c.cid = some s) :
+    let e := if c.v = 5 then (match c.discExpiry with | some (some x) => x | _ => s.expiry) else s.expiry
+    let b' := b.unregister conn false
+    (e ≠ 0 → (b'.offline.find? (fun (cd : String × Nat) => cd.1 == c.cid)) = some (c.cid, b.now + e * 1000) ∧ (b'.sess? c.cid).isSome = true) ∧
+    (e = 0 → (b'.sess? c.cid) = none ∧ b'.offline.find? (fun (cd : String × Nat) => cd.1 == c.cid) = none
+              ∧ ∀ cs ∈ b'.subs, cs.1 ≠ c.cid) := by
+  intro e b'
+  have he : (unregSess c s false).expiry = e := unregSess_expiry c s
+  have hcid : s.cid = c.cid := (sess?_some hs).2
+  have hb' : b' = b.unregister conn false := rfl
+  rw [unregister_eq b conn false c hc, hs] at hb'
+  simp only at hb'
+  generalize hs2 : ({ unregSess c s false with queue := (unregSess c s false).queue.close } : Sess) = s2 at hb'
+  have hs2e : s2.expiry = e := by rw [← hs2]; exact he
+  have hs2c : s2.cid = c.cid := by rw [← hs2]; show (unregSess c s false).cid = _; rw [unregSess_cid, hcid]
+  have g := grow_willStep ((b.dropCli conn).setSess s2) c s2 (!false && (unregSess c s false).expiry != 0)
+  generalize willStep ((b.dropCli conn).setSess s2) c s2 (!false && (unregSess c s false).expiry != 0) = X at hb' g
+  rw [he] at hb'
+  refine ⟨fun hne => ?_, fun h0 => ?_⟩
+  · have : (!false && e != 0) = true := by simpa using hne
+    rw [if_pos this] at hb'
+    rw [hb']
+    refine ⟨?_, ?_⟩
+    · simp only [List.find?_cons_of_pos, beq_self_eq_true, g.now]
+      rfl
+    · show (X.sess? c.cid).isSome = true
+      apply g.sess
+      rw [← hs2c, sess?_setSess_same]
+      rfl
+  · have : ¬ (!false && e != 0) = true := by simp [h0]
+    rw [if_neg this] at hb'
+    rw [hb']
+    refine ⟨sess?_terminate_self X c.cid, ?_, ?_⟩
+    · exact find?_filter_self (fun (cd : String × Nat) => cd.1) c.cid X.offline
+    · intro cs hcs
+      have := (List.mem_filter.1 hcs).2
+      simpa using this
+
+theorem afterDisplace_def (b : B) (cid : String) :
+    afterDisplace b cid = b ∨ ∃ old, b.cliOf? cid = some old ∧ afterDisplace b cid = b.kick old.conn (some 0x8E) := by
+  unfold afterDisplace
+  cases b.cliOf? cid with
+  | none => exact .inl rfl
+  | some old => exact .inr ⟨old, rfl, rfl⟩
+
+theorem qkeys_restamp (q : Queue.Q) (f : Queue.Elem → Nat) :
+    qkeys { q with rest := q.rest.map (fun e => if e.pub then { e with size := f e } else e) } = qkeys q := by
+  simp only [qkeys, Queue.Q.items, List.map_append, List.map_map]
+  congr 1
+  apply List.map_congr_left
+  intro e _
+  simp only [Function.comp]
+  split <;> rfl
+
+theorem newSess_resume (cfg : Cfg) (b1 : B) (r : ConnectReq) (s0 : Sess) (hs : b1.sess? r.cid = some s0)
+    (hres : resumeOf b1 r = true) :
+    (newSess cfg b1 r).unack = s0.unack ∧ qkeys (newSess cfg b1 r).queue = qkeys s0.queue := by
+  refine ⟨by simp [newSess, hs, hres], ?_⟩
+  show qkeys (newQueue cfg b1 r) = _
+  unfold newQueue
+  simp only [hs, hres, if_true]
+  rw [qkeys_restamp _ (fun e => totalBytes r.v ((endOld b1 r).msgOf e.tag)), init_keys]
+
+theorem connect_resume_keeps (b : B) (r : ConnectReq) (_hfresh : b.cli? r.conn = none) (s0 : Sess)
+    (hs : (afterDisplace b r.cid).sess? r.cid = some s0)
+    (hres : r.clean = false ∧ deadlinePassed (afterDisplace b r.cid) r.cid = false) :
+    let b0 := afterDisplace b r.cid
+    let b' := { (b.connect r) with out := [] }
+    b'.subs = b0.subs ∧
+    ∃ s', b'.sess? r.cid = some s' ∧ s'.unack = s0.unack ∧
+      s'.queue.items.map (fun e => (e.tag, e.pub, e.id, e.qos)) = s0.queue.items.map (fun e => (e.tag, e.pub, e.id, e.qos)) := by
+  intro b0 b'
+  have hr : resumeOf b0 r = true := (resumeOf_iff b0 r).2 ⟨hres.1, by rw [hs]; rfl, hres.2⟩
+  obtain ⟨hu, hk⟩ := newSess_resume b.cfg b0 r s0 hs hr
+  obtain ⟨s', hs', rel⟩ := connect_sess b r
+  refine ⟨?_, s', hs', rel.2.1.trans hu, ?_⟩
+  · show (b.connect r).subs = b0.subs
+    rw [connect_eq, (replay_run 100000 _ r.conn).frame.subs, core_subs]
+    rcases endOld_spec b0 r with ⟨g, _⟩ | ⟨_, h, _⟩
+    · exact g.subs
+    · rw [hr] at h; cases h
+  · exact rel.2.2.2.trans hk
+
+/-- subscriptions belong to stored sessions (part of the invariant `WF`) -/
+def SubsOK (b : B) : Prop := ∀ cs ∈ b.subs, (b.sess? cs.1).isSome = true
+
+theorem SubsOK.grow {b b' : B} (h : SubsOK b) (g : Grow b b') : SubsOK b' := by
+  intro cs hcs; rw [g.subs] at hcs; exact g.sess _ (h cs hcs)
+
+theorem SubsOK.terminate {b : B} (h : SubsOK b) (cid : String) : SubsOK (b.terminate cid) := by
+  intro cs hcs
+  have hcs' := List.mem_filter.1 hcs
+  have hne : cid ≠ cs.1 := by
+    intro e; have := hcs'.2; simp [e] at this
+  rw [sess?_terminate_ne b cid cs.1 hne]
+  exact h cs hcs'.1
+
+theorem SubsOK.unregister {b : B} (h : SubsOK b) (conn : String) (force : Bool) : SubsOK (b.unregister conn force) := by
+  cases hc : b.cli? conn with
+  | none => rw [unregister_none b conn force hc]; exact h
+  | some c =>
+    have h1 : SubsOK (b.dropCli conn) := h
+    rw [unregister_eq b conn force c hc]
+    split
+    · exact h1.terminate _
+    · simp only
+      have g := grow_willStep ((b.dropCli conn).setSess
+        { unregSess c ‹Sess› force with queue := (unregSess c ‹Sess› force).queue.close }) c
+        { unregSess c ‹Sess› force with queue := (unregSess c ‹Sess› force).queue.close }
+        (!force && (unregSess c ‹Sess› force).expiry != 0)
+      have h2 := (h1.grow (grow_setSess _ _)).grow g
+      split
+      · exact h2
+      · exact h2.terminate _
+
+theorem SubsOK.afterDisplace {b : B} (h : SubsOK b) (cid : String) : SubsOK (afterDisplace b cid) := by
+  rcases afterDisplace_def b cid with e | ⟨old, _, e⟩
+  · rw [e]; exact h
+  · rw [e]
+    obtain ⟨o, ho⟩ := kick_eq b old.conn (some 0x8E)
+    rw [ho]
+    exact SubsOK.unregister (b := { b with out := o }) h _ _
+
+theorem newSess_fresh (cfg : Cfg) (b1 : B) (r : ConnectReq) (hres : resumeOf b1 r = false) :
+    (newSess cfg b1 r).unack = [] ∧ qkeys (newSess cfg b1 r).queue = [] := by
+  refine ⟨?_, ?_⟩
+  · simp only [newSess, hres]
+    cases b1.sess? r.cid <;> simp
+  · show qkeys (newQueue cfg b1 r) = _
+    unfold newQueue
+    simp only [hres]
+    cases b1.sess? r.cid <;> simp [qkeys, Queue.Q.init, Queue.Q.items]
+
+theorem connect_fresh_empty (b : B) (r : ConnectReq) (_hfresh : b.cli? r.conn = none)
+    (hsubs : ∀ cs ∈ b.subs, (b.sess? cs.1).isSome = true)
+    (hnot : ¬ (r.clean = false ∧ ((afterDisplace b r.cid).sess? r.cid).isSome = true ∧
+               deadlinePassed (afterDisplace b r.cid) r.cid = false)) :
+    let b' := b.connect r
+    (∀ cs ∈ b'.subs, cs.1 ≠ r.cid) ∧
+    ∃ s', b'.sess? r.cid = some s' ∧ s'.unack = [] ∧ s'.queue.items = [] := by
+  intro b'
+  have hr : resumeOf (afterDisplace b r.cid) r = false := by
+    rw [← Bool.not_eq_true, resumeOf_iff]; exact hnot
+  obtain ⟨hu, hk⟩ := newSess_fresh b.cfg (afterDisplace b r.cid) r hr
+  obtain ⟨s', hs', rel⟩ := connect_sess b r
+  refine ⟨?_, s', hs', rel.2.1.trans hu, ?_⟩
+  · have h0 : SubsOK (afterDisplace b r.cid) := SubsOK.afterDisplace hsubs r.cid
+    show ∀ cs ∈ (b.connect r).subs, cs.1 ≠ r.cid
+    rw [connect_eq, (replay_run 100000 _ r.conn).frame.subs, core_subs]
+    intro cs hcs hc
+    rcases endOld_spec (afterDisplace b r.cid) r with ⟨g, h | h⟩ | ⟨g, _, _⟩
+    · rw [hr] at h; cases h
+    · rw [g.subs] at hcs
+      have := h0 cs hcs
+      rw [hc, h] at this
+      cases this
+    · rw [g.subs] at hcs
+      have := (List.mem_filter.1 hcs).2
+      simp [hc] at this
+  · have : qkeys s'.queue = [] := rel.2.2.2.trans hk
+    simpa [qkeys] using this
+
+theorem WF.afterDisplace {b : B} (h : WF b) (cid : String) : WF (afterDisplace b cid) := by
+  rcases afterDisplace_def b cid with e | ⟨old, _, e⟩
+  · rw [e]; exact h
+  · rw [e]; exact h.kick _ _
+
+theorem afterDisplace_clis (b : B) (cid : String) : ∀ x ∈ (afterDisplace b cid).clis, x ∈ b.clis := by
+  rcases afterDisplace_def b cid with e | ⟨old, _, e⟩
+  · rw [e]; exact fun _ h => h
+  · rw [e, (kick_frame b old.conn _).2.2]
+    exact fun x hx => (List.mem_filter.1 hx).1
+
+/-- after the displacement nobody with this client id is online -/
+theorem afterDisplace_nocid {b : B} (h : WF b) (cid : String) : ∀ x ∈ (afterDisplace b cid).clis, x.cid ≠ cid := by
+  unfold afterDisplace
+  cases hc : b.cliOf? cid with
+  | none =>
+    intro x hx hxc
+    unfold B.cliOf? at hc
+    rw [List.find?_eq_none] at hc
+    exact hc x hx (by simpa using hxc)
+  | some old =>
+    obtain ⟨hm, hcid⟩ := cliOf?_some hc
+    simp only
+    rw [(kick_frame b old.conn _).2.2]
+    intro x hx hxc
+    have hx' := List.mem_filter.1 hx
+    have : x = old := h.cid_inj hx'.1 hm (by rw [hxc, hcid])
+    rw [this] at hx'
+    simp at hx'
+
+/-- registering a new connection whose name and client id are not online -/
+theorem WF.addCli {b : B} (h : WF b) (c : Cli) (hcid : ∀ x ∈ b.clis, x.cid ≠ c.cid) (hconn : ∀ x ∈ b.clis, x.conn ≠ c.conn)
+    (hs : (b.sess? c.cid).isSome = true) :
+    WF { (b.setCli c) with offline := b.offline.filter (·.1 != c.cid) } := by
+  have hsub : (b.clis.filter (·.conn != c.conn)).Sublist b.clis := List.filter_sublist
+  refine ⟨?_, ?_, ?_, ?_, h.subsess⟩
+  · show ((c :: b.clis.filter (·.conn != c.conn)).map (·.cid)).Nodup
+    rw [List.map_cons, List.nodup_cons]
+    refine ⟨?_, h.cids.sublist (hsub.map _)⟩
+    intro hmem
+    obtain ⟨x, hx, hxc⟩ := List.mem_map.1 hmem
+    exact hcid x (hsub.subset hx) hxc
+  · show ((c :: b.clis.filter (·.conn != c.conn)).map (·.conn)).Nodup
+    rw [List.map_cons, List.nodup_cons]
+    refine ⟨?_, h.conns.sublist (hsub.map _)⟩
+    intro hmem
+    obtain ⟨x, hx, hxc⟩ := List.mem_map.1 hmem
+    exact hconn x (hsub.subset hx) hxc
+  · intro x hx
+    rcases List.mem_cons.1 hx with rfl | hx
+    · exact hs
+    · exact h.online x (hsub.subset hx)
+  · intro cd hcd x hx
+    have hcd' := List.mem_filter.1 hcd
+    rcases List.mem_cons.1 hx with rfl | hx
+    · intro e; have := hcd'.2; simp [e] at this
+    · exact h.offl cd hcd'.1 x (hsub.subset hx)
+
+theorem core_wf {b1 : B} (cfg : Cfg) (r : ConnectReq) (h : WF b1) (hcid : ∀ x ∈ b1.clis, x.cid ≠ r.cid)
+    (hconn : ∀ x ∈ b1.clis, x.conn ≠ r.conn) : WF (connectCore cfg b1 r) := by
+  have h2 : WF ((endOld b1 r).setSess (newSess cfg b1 r)) := (endOld_wf r h hcid).setSess _
+  have hcl : ((endOld b1 r).setSess (newSess cfg b1 r)).clis = b1.clis := endOld_clis b1 r
+  have := h2.addCli (newCli cfg r) (by rw [hcl]; exact hcid) (by rw [hcl]; exact hconn)
+    (by show (((endOld b1 r).setSess (newSess cfg b1 r)).sess? r.cid).isSome = true
+        rw [show r.cid = (newSess cfg b1 r).cid from rfl, sess?_setSess_same]; rfl)
+  exact this.emit _ _ _
+
+theorem wf_connect {b : B} (h : WF b) (r : ConnectReq) (hfresh : b.cli? r.conn = none) : WF (b.connect r) := by
+  rw [connect_eq]
+  refine (replay_run 100000 _ r.conn).wf (core_wf b.cfg r (h.afterDisplace r.cid) (afterDisplace_nocid h r.cid) ?_)
+  intro x hx hxc
+  have hm := afterDisplace_clis b r.cid x hx
+  unfold B.cli? at hfresh
+  rw [List.find?_eq_none] at hfresh
+  exact hfresh x hm (by simpa using hxc)
+
+theorem outs_connect (b : B) (r : ConnectReq) :
+    Outs (fun o => (b.cli? o.conn).isSome = true ∨ o.conn = r.conn) b (b.connect r) := by
+  rw [connect_eq]
+  refine ((afterDisplace_outs b r.cid).mono (fun o ho => .inl ho.1)).trans (Outs.trans (b := connectCore b.cfg (afterDisplace b r.cid) r) ?_ ?_)
+  · exact ⟨[_], core_out _ _ _, by intro o ho; rw [List.mem_singleton] at ho; rw [ho]; exact .inr rfl⟩
+  · exact (replay_run 100000 _ r.conn).outs.mono (fun o ho => .inr ho.1)
+
+/-- every wire step preserves the invariant and writes only to online connections (or the one it creates) -/
+theorem ok_step (b : B) (st : Step) :
+    Ok (fun o => (b.cli? o.conn).isSome = true ∨ (∃ r, st = .connect r ∧ o.conn = r.conn)) b (stepB b st) := by
+  cases st with
+  | connect r =>
+    simp only [stepB]
+    cases hc : b.cli? r.conn with
+    | some c => exact Ok.refl _ _
+    | none =>
+      simp only [Option.isSome_none, Bool.false_eq_true, if_false]
+      exact ⟨(outs_connect b r).mono (fun o ho => ho.elim .inl (fun h => .inr ⟨r, rfl, h⟩)), fun hw => wf_connect hw r hc⟩
+  | subscribe c p t i => exact (ok_subscribe b c p t i).mono (fun _ h => .inl h)
+  | unsubscribe c p t => exact (ok_unsubscribe b c p t).mono (fun _ h => .inl h)
+  | publish r => exact (ok_publish b r).mono (fun _ h => .inl h)
+  | pubrel c p => exact (ok_pubrelIn b c p).mono (fun _ h => .inl h)
+  | ack c i => exact ok_ackOut b c i
+  | pubrec c i k => exact (ok_pubrecOut b c i k).mono (fun _ h => .inl h)
+  | disconnect c se => exact ok_disconnectIn b c se
+  | close c => exact (ok_closeIn b c).mono (fun _ h => .inl h)
+  | apiPublish m => exact ok_apiPublish b m
+  | apiTerminate cid => exact (ok_apiTerminate b cid).mono (fun _ h => .inl h)
+  | apiExpire => exact ok_apiExpire b
+  | apiBackdate cid s => exact ok_apiBackdate b cid s
+  | sleep ms => exact ok_sleep b ms
+  | pump => exact (ok_pumpAll b).mono (fun _ h => .inl h)
+
+theorem wf_step {b : B} (h : WF b) (st : Step) : WF (stepB b st) := (ok_step b st).wf h
+
+theorem wf_run {b : B} (h : WF b) (steps : List Step) : WF (runB b steps) := by
+  induction steps generalizing b with
+  | nil => exact h
+  | cons s ss ih => exact ih (wf_step h s)
+
+/-- every state reachable from the empty broker is well-formed -/
+theorem reachable_wf (cfg : Cfg) (steps : List Step) : WF (runB { cfg := cfg } steps) := wf_run (wf_empty cfg) steps
+
+theorem run_clis_nodup (cfg : Cfg) (steps : List Step) :
+    ((runB { cfg := cfg } steps).clis.map (·.cid)).Nodup ∧ ((runB { cfg := cfg } steps).clis.map (·.conn)).Nodup :=
+  ⟨(reachable_wf cfg steps).cids, (reachable_wf cfg steps).conns⟩
+
+theorem step_writes_online (b : B) (st : Step) (o : Out) (ho : o ∈ (stepB b st).out.drop b.out.length) :
+    (b.cli? o.conn).isSome = true ∨ (∃ r, st = .connect r ∧ o.conn = r.conn) :=
+  (ok_step b st).outs.mem_drop ho
+
 end GmqttVerif.Broker
